@@ -30,6 +30,8 @@ type Exec struct {
 	P       *Program
 	sched   *Sched
 	sol     *Solver
+	sols    map[string]*Solver
+	defaultSolver string
 	job     *Job
 	globals map[*ssa.Global]*Cell
 	tables  map[string]string
@@ -58,11 +60,12 @@ type Exec struct {
 	catching int
 	abstract []string // reasons this path used an unrealisable stub result
 	curFn    []*ssa.Function
-	curPos   string
+	curIn    ssa.Instruction
+	fnNames  map[*ssa.Function]string
 
 	// stats (accumulated by worker, merged into job)
 	branches int
-	funcs    map[string]bool
+	funcs    map[*ssa.Function]bool
 }
 
 const maxSteps = 3000000
@@ -192,7 +195,7 @@ func (x *Exec) decide(term string) bool {
 	} else {
 		ff := x.sol.feasible("(not " + term + ")")
 		if tf == "unknown" || ff == "unknown" {
-			x.job.noteUnknown("branch feasibility at " + x.curPos)
+			x.job.noteUnknown("branch feasibility at " + x.where())
 		}
 		switch {
 		case ff == "unsat":
@@ -208,6 +211,29 @@ func (x *Exec) decide(term string) bool {
 	x.assert(term, d)
 	return d
 }
+// decideFree: a decision on a fresh choice variable that occurs in no other
+// constraint (kind of a lazy node, presence of a key, a length, a
+// permutation). Both sides are feasible by construction, so no solver query
+// is needed to fork.
+func (x *Exec) decideFree(term string, canFalse bool) bool {
+	if x.pos < len(x.prefix) {
+		d := x.prefix[x.pos]
+		x.pos++
+		x.decs = append(x.decs, d)
+		x.assert(term, d)
+		return d
+	}
+	x.branches++
+	if canFalse {
+		alt := append(append([]bool{}, x.decs...), false)
+		x.sched.push(x.job, alt)
+	}
+	x.pos++
+	x.decs = append(x.decs, true)
+	x.assert(term, true)
+	return true
+}
+
 func (x *Exec) assert(term string, d bool) {
 	if d {
 		x.sol.send("(assert " + term + ")\n")
@@ -283,7 +309,7 @@ func (x *Exec) mustNot(term string, kind string, id string) {
 	if r == "sat" {
 		x.reportInScope(kind, id)
 	} else if r == "unknown" {
-		x.job.noteUnknown("obligation " + kind + " " + id + " at " + x.curPos)
+		x.job.noteUnknown("obligation " + kind + " " + id + " at " + x.where())
 	}
 	x.sol.send("(pop 1)\n")
 	x.sol.send("(assert (not " + term + "))\n")
@@ -317,12 +343,15 @@ func (x *Exec) reportInScope(kind, id string) {
 	key := kind + "@" + fn
 	if id != "" {
 		key = kind + ":" + id + "@" + fn
+		if ex, ok := x.job.Params["expr"]; ok && !x.P.isSUTName("") {
+			key = kind + ":" + id + "@expr=" + ex
+		}
 	}
 	if !x.job.wantFinding(key) {
 		return
 	}
 	m := x.modelOf(nil)
-	f := &Finding{Kind: kind, ID: id, Func: fn, Where: x.curPos, Key: key,
+	f := &Finding{Kind: kind, ID: id, Func: fn, Where: x.where(), Key: key,
 		Tape: x.renderTape(m), Abstract: append([]string{}, x.abstract...), Job: x.job.describe()}
 	x.job.addFinding(f)
 }
@@ -437,6 +466,23 @@ func (x *Exec) get(fr *frame, v ssa.Value) Val {
 	return r
 }
 
+// where: source position of the instruction being executed (computed on demand).
+func (x *Exec) where() string {
+	if x.curIn == nil {
+		return "?"
+	}
+	return x.pos_(x.curIn)
+}
+
+func (x *Exec) fname(f *ssa.Function) string {
+	if n, ok := x.fnNames[f]; ok {
+		return n
+	}
+	n := f.String()
+	x.fnNames[f] = n
+	return n
+}
+
 func (x *Exec) pos_(in ssa.Instruction) string {
 	p := x.P.prog.Fset.Position(in.Pos())
 	if !p.IsValid() {
@@ -463,16 +509,18 @@ func (x *Exec) call(fn *ssa.Function, args []Val, env []Val) Val {
 	if v, ok := x.external(fn, args); ok {
 		return v
 	}
-	if x.funcs != nil && x.P.isSUT(fn) {
-		x.funcs[shortFn(fn)] = true
+	if x.funcs != nil {
+		if _, seen := x.funcs[fn]; !seen {
+			x.funcs[fn] = x.P.isSUT(fn)
+		}
 	}
 	x.depth++
 	if x.depth > maxDepth {
 		x.fail("recursion-depth", "")
 	}
 	x.curFn = append(x.curFn, fn)
-	savedPos := x.curPos
-	defer func() { x.depth--; x.curFn = x.curFn[:len(x.curFn)-1]; x.curPos = savedPos }()
+	savedPos := x.curIn
+	defer func() { x.depth--; x.curFn = x.curFn[:len(x.curFn)-1]; x.curIn = savedPos }()
 	fr := &frame{fn: fn, env: make(map[ssa.Value]Val, 32), loops: map[*ssa.BasicBlock]int{}}
 	for i, p := range fn.Params {
 		fr.env[p] = args[i]
@@ -524,7 +572,7 @@ func (x *Exec) call(fn *ssa.Function, args []Val, env []Val) Val {
 			}
 			switch in := in.(type) {
 			case *ssa.If:
-				x.curPos = x.pos_(in)
+				x.curIn = in
 				c := x.get(fr, in.Cond).(Bool)
 				if nb, ok := x.ifConvert(fr, blk, c); ok {
 					next = nb
@@ -549,22 +597,22 @@ func (x *Exec) call(fn *ssa.Function, args []Val, env []Val) Val {
 				}
 				return t
 			case *ssa.Panic:
-				x.curPos = x.pos_(in)
+				x.curIn = in
 				if x.catching > 0 {
 					panic(userPanic{x.get(fr, in.X)})
 				}
 				x.fail("explicit-panic", "")
 			case *ssa.Store:
-				x.curPos = x.pos_(in)
+				x.curIn = in
 				x.store(x.get(fr, in.Addr).(Ptr), x.get(fr, in.Val))
 			case *ssa.MapUpdate:
-				x.curPos = x.pos_(in)
+				x.curIn = in
 				x.mapUpdate(x.get(fr, in.Map).(*Map), x.get(fr, in.Key), x.get(fr, in.Value))
 			case *ssa.DebugRef, *ssa.RunDefers:
 			case *ssa.Defer, *ssa.Go, *ssa.Send, *ssa.Select:
 				panic(unsupported{fmt.Sprintf("instruction %T in %s", in, fn)})
 			case ssa.Value:
-				x.curPos = x.pos_(in.(ssa.Instruction))
+				x.curIn = in.(ssa.Instruction)
 				fr.env[in] = x.eval(fr, in)
 			default:
 				panic(unsupported{fmt.Sprintf("instruction %T", in)})
@@ -577,7 +625,6 @@ func (x *Exec) call(fn *ssa.Function, args []Val, env []Val) Val {
 		if next.Index <= blk.Index {
 			fr.loops[next]++
 			if fr.loops[next] > x.job.Unwind {
-				x.curPos = shortFn(fn) + ":loop"
 				x.fail("unwind", "")
 			}
 		}
